@@ -32,58 +32,71 @@ THEOREMS = ["C09_final_stage_direction",
             "C09_body_direction",
             "C09_body_corrections",
             "C09_body_elongation",
+            "C09_body_LAMG_BETG",
+            "C09_body_radec",
             "C09_minor_geo_elliptic",
+            "C09_kepler_sat_geo",
             "C09_minor_geo_near_parabolic",
+            "C09_near_parabolic_witness",
             "C09_minor_helio",
+            "C09_kepler_sat_helio",
             "C09_minor_elongation",
-            "C09_minor_direction", "C09_pluto_geo", "C09_pluto_refuses"]
+            "C09_minor_direction",
+            "C09_pluto_geo",
+            "C09_pluto_refuses"]
 PROOF_TIMEOUT = {"quick": 2000, "thorough": 3000}
 EXHAUSTIVE = False
 MANIFEST = {
     "category": "proof",
-    "text": "Ideal-instance theorems about the GENERATED code with all callees abstracted (blocked + hypotheses), evaluated by a call-by-value symbolic evaluator: the whole body of each of the seven <Planet>.geocentric_position (second heliocentric call at epoch - tau, vector difference, atan2 stage, aberration k = 20.49552 with the e/pi polynomials, FK5, nutation, ecliptical2equatorial with true obliquity, elongation; the Sun provably taken at the shifted epoch = known finding), Minor.geocentric_position in the elliptic and near-parabolic regimes (which branch for which e), Minor.heliocentric_ecliptical_position, Minor.set, Pluto.geocentric_position (year gate, two passes, ra/dec); the closed forms are tied to spec theorems (direction of the vector, corrections <= 0.02 deg, elongation in [0,180] = angle to the Sun, Cauchy-Schwarz for the minor-body elongation); JDE2000 = 2451545 proved; bit-exact correspondence on planet/Pluto/Minor calls; search oracle recomputing every direction from the library's own heliocentric vectors (planets), the re-evaluated Meeus series (Pluto) and an independent two-body propagation (minor bodies).",
+    "text": "Real-number (ideal) instance only; nothing is proved about binary64 rounding or about the headline tolerances (0.02 / 1e-4 degree agreement, Mercury/Venus maxima: searched). Proved about the GENERATED code, by call-by-value symbolic evaluation with callees blocked and given as hypotheses ONLY at the arguments really passed (PARTIAL CORRECTNESS: conditional on those callees returning values of the stated shape): the whole body of each of the seven <Planet>.geocentric_position (planet at epoch and epoch - tau, Earth at the caller's epoch, lambda/beta by atan2, aberration k = 20.49552 with the e/pi polynomials, FK5, nutation, ecliptical2equatorial NOT abstracted (C05 closed form) so RA/Dec are the rotation of (LAMG, BETG) by the true obliquity, elongation acos(cos B cos(L - Lsun)) with the Sun provably taken at the shifted epoch = known finding), under |T| <= 40 cy, |beta| <= 25 deg, |B| <= 25 deg assumed of the callee outputs; Minor.geocentric_position for e < 0.98 (kepler_equation hypotheses at the two mean anomalies used, shown satisfiable from C11's characterisation for 0 <= e < 1) and for 0.98 <= e, |e-1| >= tol (conditional on the two _near_parabolic calls returning - they may raise: known finding); Minor.heliocentric_ecliptical_position; Minor.set; Pluto.geocentric_position (year gate, two passes; Pluto.geometric_heliocentric_position abstracted). The closed forms are tied to spec theorems: direction of the vector, LAMG/BETG = geometric direction + corrections (mod 360) with corrections <= 0.02 deg (nutation bound assumed), elongation in [0,180], Cauchy-Schwarz for the minor-body elongation. JDE2000 = 2451545 proved. Not covered by proof: the parabolic branch (loop), the Pluto series, satisfiability of the VSOP/nutation/Sun callee hypotheses. Bit-exact correspondence on planet/Pluto/Minor calls; search oracle recomputing every direction from the library's own heliocentric vectors (planets), the re-evaluated Meeus series (Pluto) and an independent two-body propagation (minor bodies, incl. a fixed grid of exactly parabolic bodies).",
     "technique": "call-by-value symbolic evaluation (pyrun9) of the regenerated model in the real-number instance with blocked callees + real analysis (atan2/acos lemmas, Cauchy-Schwarz, interval) + bit-exact differential correspondence + oracle search",
     "design_ref": "8/C09",
 }
-EXPLANATION = ("The model of the 16 modules is regenerated from /repo. Each of the seven generated geocentric_position bodies is evaluated "
-               "symbolically, whole, in the real-number instance with its callees abstracted (C09_body_<Planet>): the result is "
-               "ecliptical2equatorial(LAMG, BETG, true_obliquity) and ELONG, closed forms (C09_body.v) that are proved to be the direction "
-               "of planet(epoch - tau) - Earth(epoch) plus aberration/FK5/nutation terms bounded by 0.02 degree, and the elongation "
-               "acos(cos B cos(L - Lsun)) in [0,180]. Minor.set, Minor.geocentric_position (elliptic and near-parabolic regimes) and "
-               "Minor.heliocentric_ecliptical_position are evaluated the same way. The parabolic loop, Pluto, and the numerical agreement "
-               "(0.02 / 1e-4 degree) with vectors recomputed from the library are searched, not proved.")
+EXPLANATION = ("Ideal (real-number) instance, partial correctness with abstracted callees. Each of the seven generated geocentric_position "
+               "bodies is evaluated symbolically, whole, with its callees given as hypotheses at the arguments really passed "
+               "(C09_body_<Planet>): the result is (RAG, DECG, ELONG), closed forms (C09_body.v) proved to be the rotation by the obliquity of "
+               "(LAMG, BETG) = direction of planet(epoch - tau) - Earth(epoch) plus aberration/FK5/nutation terms bounded by 0.02 degree "
+               "(mod 360), and the elongation acos(cos B cos(L - Lsun)) in [0,180] with the Sun at the shifted epoch. Minor.set, "
+               "Minor.geocentric_position (elliptic: kepler hypotheses shown satisfiable; near-parabolic: conditional on _near_parabolic "
+               "returning), Minor.heliocentric_ecliptical_position and Pluto.geocentric_position are evaluated the same way. The parabolic loop, "
+               "the Pluto series, and the numerical agreement (0.02 / 1e-4 degree) with vectors recomputed from the library are searched, not proved.")
 CLAUSES = {
-    "planets (all 7 generated bodies, whole function): second heliocentric call at epoch - tau (tau = 0.0057755183*|planet - Earth| of the first pass, both at the caller's epoch, tofk5=False), (x,y,z) = planet(epoch - tau) - Earth(epoch), lambda = atan2(y,x), beta = atan2(z, sqrt(x^2+y^2)), aberration with k = 20.49552 and the e, pi polynomials, FK5 terms, nutation, ecliptical2equatorial with the true obliquity, elongation acos(cos B cos(L - Lsun))": "proved [ideal, generated code, callees abstracted: C09_body_<Planet>; side conditions |T| <= 40 cy, |beta| <= 25 deg, |B| <= 25 deg]",
-    "planets: lambda, beta of the generated body are the direction of (x,y,z) (atan2 quadrants)": "proved [generated closed forms -> spec: C09_body_direction]",
-    "planets: what the generated body adds (aberration + FK5 + nutation) <= 0.02 deg for |beta|, |B| <= 25 deg, |T| <= 40 cy, |dpsi| <= 19.03 arcsec": "proved [generated closed forms -> spec: C09_body_corrections]",
+    "planets (all 7 generated bodies, whole function; PARTIAL CORRECTNESS, ideal instance): IF planet(j), planet(j1), Earth(j), Epoch.__isub__(j, tau)=j1, nutation(j1), obliquity(j1), Sun(j1) return values of the stated shape, with tau = 0.0057755183*|planet(j) - Earth(j)|, and |T(j1)| <= 40 cy, |beta| <= 25 deg, |B(j1)| <= 25 deg, THEN the body returns (RAG, DECG, ELONG): lambda = atan2(y,x), beta = atan2(z, sqrt(x^2+y^2)) of planet(j1) - Earth(j), aberration k = 20.49552 with the e, pi polynomials, FK5, nutation, ecliptical2equatorial (closed form, not abstracted), elongation acos(cos B cos(L - Lsun(j1)))": "proved [ideal, generated code, callees abstracted at the used arguments only: C09_body_<Planet>]; satisfiability of the VSOP87/nutation/Sun callee hypotheses NOT proved (shapes observed bit-exactly in correspondence)",
+    "planets: lambda, beta of the generated body are the direction of (x,y,z) (atan2 quadrants), x or y nonzero": "proved [generated closed forms -> spec: C09_body_direction]",
+    "planets: LAMG/BETG handed to ecliptical2equatorial = geometric (lambda, beta) in degrees + (aberration + FK5 + nutation) up to whole turns": "proved [generated closed forms: C09_body_LAMG_BETG]",
+    "planets: that sum of corrections <= 0.02 deg for |beta|, |B| <= 25 deg, |T| <= 40 cy, and |dpsi| <= 19.03 arcsec ASSUMED (nutation series not bounded here)": "proved [generated closed forms -> spec: C09_body_corrections]",
+    "planets: returned RA/Dec = rotation about x by the true obliquity of the unit vector (LAMG, BETG), RA in [0,360), Dec in [-90,90], for |BETG| < 90": "proved [generated closed forms + C05 closed form of ecliptical2equatorial: C09_body_radec]",
     "planets: returned elongation lies in [0,180] and is acos(cos B cos(L - Lsun))": "proved [generated closed forms -> spec: C09_body_elongation]",
-    "planets: Sun/nutation/obliquity evaluated at epoch - tau (not the epoch of observation)": "refuted for the property text: C09_body_<Planet> shows the generated body passes the shifted epoch j1 to Sun.apparent_geocentric_position; known finding elongation-sun-at-light-time-epoch (search: up to 0.17 deg for Neptune); the formula itself is checked against the Sun at epoch - tau under key elongation-formula",
-    "caller's Epoch not shifted": "proved in the model sense [C09_body_<Planet>: the Earth is taken at the caller's epoch value j after the shift, the shifted value is a different object returned by Epoch.__isub__] + searched (jde before/after every call)",
-    "planets: agreement to 0.02 deg with the direction recomputed from the library's heliocentric vectors, epochs -2000..4000": "unproved (searched): follows from C09_body_direction + C09_body_corrections only under their side conditions and bounds on the nutation series; the search recomputes it on the implementation",
+    "planets: Sun/nutation/obliquity evaluated at epoch - tau (not the epoch of observation)": "refuted for the property text: C09_body_<Planet> shows the generated body passes the shifted epoch j1 to Sun.apparent_geocentric_position; known finding elongation-sun-at-light-time-epoch with envelope |dev| <= min(0.21, 1.1*tau + 0.012) deg (beyond: key ...-gross = violation); the formula itself is checked against the Sun at epoch - tau under key elongation-formula",
+    "caller's Epoch not shifted": "unproved (searched): a value-semantic model cannot observe aliasing; the oracle compares jde before/after every call (key epoch-shifted). C09_body_<Planet> only shows that the Earth is requested at the caller's value j and the shifted value is the one returned by Epoch.__isub__",
+    "planets: agreement to 0.02 deg with the direction recomputed from the library's heliocentric vectors, epochs -2000..4000": "unproved (searched)",
     "auxiliary (tighter than the property text): returned place within 0.002 deg of the apparent place rebuilt with independently written aberration/FK5 formulas and the library's nutation": "unproved (searched), key planet-apparent-place",
     "Mercury <= 28.5 deg, Venus <= 48 deg": "unproved (searched)",
-    "Pluto.geocentric_position body: year gate 1885..2099 (ValueError outside), Pluto at epoch and at epoch - tau, ecliptic J2000 -> equatorial, ra = atan2(eta, xi) in [0,360), dec = asin(zeta/delta)": "proved [ideal, generated code, Pluto.geometric_heliocentric_position / Sun.rectangular_coordinates_j2000 / Epoch.year / Epoch.__sub__ abstracted: C09_pluto_geo, C09_pluto_refuses]",
+    "Pluto.geocentric_position body (PARTIAL CORRECTNESS, ideal): IF Epoch.year(j) = yv in [1885, 2099], Pluto.geometric_heliocentric_position at j and at j1 = Epoch.__sub__(j, tau), Sun.rectangular_coordinates_j2000(j) return, delta <> 0, THEN ra = atan2(eta, xi) in [0,360), dec = asin(zeta/delta) of Pluto(j1) + Sun(j); ValueError for yv outside": "proved [ideal, generated code, callees abstracted at the used arguments: C09_pluto_geo, C09_pluto_refuses]; closed form only, no tie to a direction lemma",
     "Pluto.geometric_heliocentric_position (43-term series)": "unproved (searched): series of Meeus ch.37 re-evaluated independently with the module's tables (key pluto-heliocentric-series) + bit-exact correspondence",
     "Pluto 1885-2099 direction to 1e-4 deg": "unproved (searched)",
-    "Minor.set: Gauss constants a,b,c,A,B,C closed forms; a = |q/(1-e)| (e < 1 - tol) or q (|e-1| <= tol); n = 0.9856076686/(a sqrt a)": "proved [ideal, generated code, all q > 0, any orientation]",
-    "Minor: the Gauss constants rotate (r, u) into equatorial J2000 x,y,z (Rx(eps) Rz(Omega) Rx(i))": "proved [spec: gauss_xyz]",
-    "Minor.geocentric_position, regime e < 0.98: kepler_equation path, r = a(1 - e cos E), two light-time passes, ra/dec = direction of body(t - tau) + Sun(t), elongation": "proved [ideal, generated code, kepler_equation and Sun.rectangular_coordinates_j2000 abstracted: C09_minor_geo_elliptic, C09_minor_direction, C09_minor_elongation]",
-    "Minor.geocentric_position, regime 0.98 <= e, |e-1| >= tol: _near_parabolic path, same two passes and direction stage": "proved [ideal, generated code, _near_parabolic abstracted: C09_minor_geo_near_parabolic]",
-    "Minor.geocentric_position, regime |e-1| < tol (parabolic): Barker iteration": "unproved (searched): data-dependent while loop; searched against the two-body propagation (key minor-parabolic-no-light-time / minor-direction)",
-    "Minor.heliocentric_ecliptical_position closed form": "proved [ideal, generated code, kepler_equation abstracted: C09_minor_helio]",
-    "Minor: elongation argument within [-1,1] (no math domain error) whenever |g||s| <> 0": "proved [Cauchy-Schwarz, C09_minor_elongation]",
+    "Minor.set: Gauss constants a,b,c,A,B,C closed forms; a = |q/(1-e)| (q > 0, e < 1 - tol) or q (q > 0, |e-1| <= tol); n = 0.9856076686/(a sqrt a)": "proved [ideal, generated code, any orientation]",
+    "Minor: the Gauss constants rotate (r, u) into equatorial J2000 x,y,z (Rx(eps) Rz(Omega) Rx(i))": "proved [spec, used by the generated closed forms: gauss_xyz]",
+    "Minor.geocentric_position, e < 0.98 (ideal): IF kepler_equation returns (E, v), |E| < 360, at the two mean anomalies the body passes, Sun.rectangular_coordinates_j2000(j) returns, |g||s| <> 0, THEN r = a(1 - e cos E), two light-time passes, ra/dec/psi = raM/decM/psiM": "proved [ideal, generated code: C09_minor_geo_elliptic]; the kepler hypotheses are satisfiable by the model for 0 <= e < 1: C09_kepler_sat_geo (from C11's characterisation)",
+    "Minor.geocentric_position, 0.98 <= e, |e-1| >= tol (PARTIAL CORRECTNESS): IF the two _near_parabolic calls (t - T, t - T - tau) return (v, r) THEN same two passes and direction stage": "proved [ideal, generated code: C09_minor_geo_near_parabolic]; the hypotheses are NOT always satisfiable (known finding minor-near-parabolic-no-convergence); shape witness at t = 0: C09_near_parabolic_witness",
+    "Minor: ra, dec are the direction of body(t - tau) + Sun(t); psi in [0,180], cos psi = <g,s>/(|g||s|), acos argument in [-1,1] (Cauchy-Schwarz)": "proved [generated closed forms -> spec: C09_minor_direction, C09_minor_elongation]",
+    "Minor.geocentric_position, regime |e-1| < tol (parabolic): Barker iteration": "unproved (searched): data-dependent while loop; a fixed grid + sample of exactly parabolic bodies (e = 1.0, q 0.1-1.5, +-30 d) against the two-body propagation at 1e-4 deg in every quick run (keys minor-parabolic-no-light-time / minor-direction)",
+    "Minor.heliocentric_ecliptical_position closed form, IF kepler_equation returns at the mean anomaly passed": "proved [ideal, generated code: C09_minor_helio]; satisfiable for 0 <= e < 1: C09_kepler_sat_helio",
     "Minor: continuity across the switch points e = 0.98, e = 1": "unproved (searched): same body at e = 0.98 -1e-9/+0/+1e-9 and 1 -1e-9/-2e-10/-1e-10/1.0 against one independent two-body propagation (1e-4 deg), _near_parabolic (v, r) to 1e-6",
     "Minor: direction to 1e-4 deg of an independent two-body propagation, q 0.1-30, e 0..1, +-50 yr; elongation to 0.02 deg": "unproved (searched)",
-    "Minor: _near_parabolic converges": "refuted by search for 0.98 <= e < ~0.9975 far from perihelion: known finding minor-near-parabolic-no-convergence",
+    "Minor: _near_parabolic converges": "refuted by search for 0.98 <= e < ~0.9975 far from perihelion: known finding minor-near-parabolic-no-convergence (ValueError('No convergence') with 0.98 <= e < 1 - tol only)",
+    "[spec] C09_final_stage_direction, C09_elongation_range, C09_elongation_cos, C09_corrections_small": "proved [spec]; bridged to the generated closed forms by C09_body_direction / _elongation / _corrections",
 }
 
 
 def proof_files(tier):
     return (["C09_spec.v", "C09_minor.v", "C09_A_defs.v", "C09_A_tac.v", "C09_A_reduce.v", "C09_A_construct.v",
-             "C09_A_ops.v", "C09_angle.v", "C09_geo.v", "C09_tac.v", "C09_body.v", "C09_J_tac.v", "C09_J_jde.v"]
+             "C09_A_ops.v", "C09_angle.v", "C09_geo.v", "C09_tac.v", "C09_E_angle.v", "C09_E_run.v", "C09_E_ecl.v",
+             "C09_body.v", "C09_J_tac.v", "C09_J_jde.v",
+             "C09_K_tac.v", "C09_K_loop.v", "C09_K_kepdefs.v", "C09_K_keppaths.v", "C09_K_kepler.v"]
             + ["C09_pl_%s.v" % p for p in PLANETS]
-            + ["C09_planets.v"] + ["C09_pa_%s.v" % p for p in PLANETS]
-            + ["C09_mbody.v", "C09_mgeo.v", "C09_pluto.v", "C09.v"])
+            + ["C09_planets.v"] + ["C09_b_%s.v" % p for p in PLANETS]
+            + ["C09_mbody.v", "C09_mgeo.v", "C09_mnp.v", "C09_pluto.v", "C09.v"])
 
 
 # ----------------------------------------------------------------------------------------------
@@ -191,7 +204,11 @@ def check_planet(I, name, jde):
     ls, bs, rs = I.Sun.apparent_geocentric_position(I.Epoch(jde))
     want = vsep(u, unit(ls.rad(), bs.rad()))
     if not abs(el - want) <= TOL_PLANET:
-        out.append(("elongation-sun-at-light-time-epoch",
+        # envelope of the known finding: the Sun moves <= 1.02 deg/day, so taking it at epoch - tau shifts the
+        # elongation by at most 1.1*tau degrees; + 0.012 deg for the aberration/nutation difference between the
+        # geometric reference direction and the apparent place (measured max of (dev - 0.012)/tau: 0.996); cap 0.21
+        env = min(0.21, 1.1 * tau + 0.012)
+        out.append(("elongation-sun-at-light-time-epoch" if abs(el - want) <= env else "elongation-sun-at-light-time-epoch-gross",
                     "%s at JDE %r: elongation %.5f, angle between the direction and the Sun's apparent direction at the same epoch %.5f (diff %.5f > 0.02); light-time %.4f d"
                     % (name, jde, el, want, el - want, tau)))
     # the formula itself: against the Sun at epoch - tau (where the code takes it), apparent vs apparent
